@@ -152,8 +152,10 @@ func (rp *replay) runTx(t string, prog []Access, gated bool, cfail bool) {
 	if gated {
 		rp.sched.Yield(t, "commit")
 	}
-	tx.Commit(cfail)
+	// logged before the call: once Commit has released the write locks another transaction may enter the
+	// cache at once, and its CbEnter line must not overtake this one (until the release nobody can enter anyway)
 	rp.tw.Emit("Commit", M{"t": t, "failed": b2i(txFailed || cfail)})
+	tx.Commit(cfail)
 }
 
 // advance releases the actor and keeps releasing it through intermediate
